@@ -77,3 +77,77 @@ theorem acceptsStep_insert_other (sub : List Str → Block K → List K → Dir 
     | some out => rw [(key out).mpr h2] at h1; cases h1
 
 end InToto.VerifySpec
+
+namespace InToto.VerifySpec
+open InToto InToto.Verify InToto.Rules InToto.Threshold
+
+variable {K : Type}
+
+/-! ### other sub-directories do not matter either -/
+
+theorem lookup_insert_other {α : Type} (k : Str) (pre post : List (Str × α)) (e : Str × α) (hne : e.1 ≠ k) :
+    lookup k (pre ++ e :: post) = lookup k (pre ++ post) := by
+  rw [lookup_append, lookup_append]
+  obtain ⟨n, d⟩ := e
+  simp only [lookup]
+  rw [if_neg hne]
+
+/-- acceptance carries over between two directories with the same files whose sub-directories agree under
+    every name a delegated step of the layout can use -/
+theorem accepted_of_same_subdirs (sub : List Str → Block K → List K → Dir K → Str → Option Link) (env : Env K)
+    (path : List Str) (b : Block K) (keys : List K) (dir dir' : Dir K) (name : Str) (out : Link)
+    (hfiles : dir'.files = dir.files)
+    (hsub : ∀ L, b.signed = .layout L → ∀ st ∈ L.steps, ∀ kid : Str,
+      subDirOf dir' (st.name ++ '.' :: prefix8 kid) = subDirOf dir (st.name ++ '.' :: prefix8 kid))
+    (h : Accepted sub env path b keys dir name out) : Accepted sub env path b keys dir' name out := by
+  obtain ⟨L, links, reps, insp, h1, h2, h3, h4, h5, h6, h7, h8, h9, h10, h11, h12⟩ := h
+  have hev : ∀ n, evidence dir' n = evidence dir n := by intro n; unfold evidence; rw [hfiles]
+  have hrd : ∀ n, readable dir' n = readable dir n := by intro n; unfold readable; rw [hfiles]
+  refine ⟨⟨L, links, reps, insp, h1, h2, h3, h4, ?_, ?_, h7, h8, h9, h10, h11, h12⟩⟩
+  · intro st hst
+    obtain ⟨a, b', c⟩ := h5 st hst
+    exact ⟨a, b', by rw [hrd]; exact c⟩
+  · rw [← h6]
+    apply allSome_congr
+    intro st hst
+    unfold stepLinks
+    simp only
+    rw [hev]
+    have hst' : ∀ e, standsFor sub path L dir' st.name e = standsFor sub path L dir st.name e := by
+      intro e
+      unfold standsFor
+      simp only
+      rw [hsub L h1 st hst e.1]
+    rw [show standsFor sub path L dir' st.name = standsFor sub path L dir st.name from funext hst']
+
+/-- **Other sub-directories do not matter.**  A sub-directory whose name is not `<step>.<8 characters>` for a
+    step of the layout, inserted anywhere among the sub-directories, changes nothing - whatever it holds. -/
+theorem acceptsStep_insert_other_subdir (sub : List Str → Block K → List K → Dir K → Str → Option Link) (env : Env K)
+    (path : List Str) (b : Block K) (keys : List K) (files : List (Str × FileC K)) (pre post : List (Str × Dir K))
+    (d : Str × Dir K) (name : Str)
+    (hd : ∀ L, b.signed = .layout L → ∀ st ∈ L.steps, ∀ kid : Str, d.1 ≠ st.name ++ '.' :: prefix8 kid) :
+    acceptsStep sub env path b keys (Dir.mk files (pre ++ d :: post)) name =
+      acceptsStep sub env path b keys (Dir.mk files (pre ++ post)) name := by
+  have hs : ∀ L, b.signed = .layout L → ∀ st ∈ L.steps, ∀ kid : Str,
+      subDirOf (Dir.mk files (pre ++ d :: post)) (st.name ++ '.' :: prefix8 kid) =
+        subDirOf (Dir.mk files (pre ++ post)) (st.name ++ '.' :: prefix8 kid) := by
+    intro L hL st hst kid
+    unfold subDirOf
+    simp only [Dir.subs]
+    rw [lookup_insert_other _ pre post d (hd L hL st hst kid)]
+  have key : ∀ out, acceptsStep sub env path b keys (Dir.mk files (pre ++ d :: post)) name = some out ↔
+      acceptsStep sub env path b keys (Dir.mk files (pre ++ post)) name = some out := by
+    intro out
+    rw [acceptsStep_iff, acceptsStep_iff]
+    constructor
+    · exact accepted_of_same_subdirs sub env path b keys _ _ name out rfl
+        (fun L hL st hst kid => (hs L hL st hst kid).symm)
+    · exact accepted_of_same_subdirs sub env path b keys _ _ name out rfl hs
+  cases h1 : acceptsStep sub env path b keys (Dir.mk files (pre ++ d :: post)) name with
+  | some out => exact ((key out).mp h1).symm
+  | none =>
+    cases h2 : acceptsStep sub env path b keys (Dir.mk files (pre ++ post)) name with
+    | none => rfl
+    | some out => rw [(key out).mpr h2] at h1; cases h1
+
+end InToto.VerifySpec
